@@ -550,7 +550,8 @@ fn add_ids(mathml: Element) -> Element {
     };
     let time_part = radix_fmt::radix(time, 36).to_string();
     let random_part = radix_fmt::radix(rand::random::<usize>(), 36).to_string();
-    let prefix = "M".to_string() + &time_part[time_part.len() - 3..] + &random_part[random_part.len() - 4..] + "-"; // begin with letter
+    // use (up to) the last 3/4 chars -- the strings are shorter for small values (e.g., 32-bit random numbers on wasm), so don't underflow
+    let prefix = "M".to_string() + &time_part[time_part.len().saturating_sub(3)..] + &random_part[random_part.len().saturating_sub(4)..] + "-"; // begin with letter
     add_ids_to_all(mathml, &prefix, 0);
     return mathml;
 
